@@ -166,6 +166,18 @@ def getL : List (Item ι V) → List Char → List V
 end
 
 mutual
+/-- `Item::get_mut(regex)` followed by an in-place update `*v = g(id, *v)` of every value it returned (same traversal
+as `get`: a node is entered iff `regex.starts_with(prefix)`, a leaf is taken iff its pattern is `regex`). -/
+def Item.modifyAt : Item ι V → List Char → (ι → V → V) → Item ι V
+  | .empty ic, _, _ => .empty ic
+  | .leaf rx vs, p, g => if rx.original = p then .leaf rx (vs.map fun kv => (kv.1, g kv.1 kv.2)) else .leaf rx vs
+  | .node rx cs, p, g => if rx.original.isPrefixOf p then .node rx (modifyAtL cs p g) else .node rx cs
+def modifyAtL : List (Item ι V) → List Char → (ι → V → V) → List (Item ι V)
+  | [], _, _ => []
+  | c :: cs, p, g => Item.modifyAt c p g :: modifyAtL cs p g
+end
+
+mutual
 /-- `Item::len`. -/
 def Item.len : Item ι V → Nat
   | .empty _ => 0
@@ -334,6 +346,115 @@ def treeCache (root : Item ι V) (limit : Nat) : Option Nat → Option (Item ι 
 
 end
 
+/-! ### `trace.rs`: `trace(haystack)` -/
+
+/-- `trace.rs::Trace`. -/
+inductive Trace (V : Type) where
+  | mk (regex : List Char) (count : Nat) (matched : Bool) (children : List (Trace V)) (values : List V)
+deriving Repr
+
+namespace Trace
+variable {V : Type}
+def regex : Trace V → List Char | mk r _ _ _ _ => r
+def count : Trace V → Nat | mk _ c _ _ _ => c
+def matched : Trace V → Bool | mk _ _ m _ _ => m
+def children : Trace V → List (Trace V) | mk _ _ _ cs _ => cs
+def values : Trace V → List V | mk _ _ _ _ vs => vs
+
+mutual
+/-- The values listed under the *matched* leaves of a trace (what the router turns into matched routes:
+`tree_trace_to_trace` keeps `values` only when `matched`, and children exist only below matched nodes). -/
+def found : Trace V → List V
+  | mk _ _ m cs vs => if m then vs ++ foundL cs else []
+def foundL : List (Trace V) → List V
+  | [] => []
+  | t :: ts => found t ++ foundL ts
+end
+end Trace
+
+section
+variable {ι V : Type} [DecidableEq ι] (E : Engine)
+
+mutual
+/-- `Item::trace` / `Node::trace` / `Leaf::trace`.  A leaf lists all its values whether or not it matched; a node
+traces its children only when its own prefix regex matched; `count` is `len()` of the sub-tree. -/
+def Item.trace : Item ι V → List Char → Trace V
+  | .empty _, _ => .mk [] 0 true [] []
+  | .leaf rx vs, s => .mk rx.original vs.length (rx.isMatch E s) [] (vs.map (·.2))
+  | .node rx cs, s =>
+    .mk rx.original (lenL cs) (rx.isMatch E s) (if rx.isMatch E s then traceL cs s else []) []
+def traceL : List (Item ι V) → List Char → List (Trace V)
+  | [], _ => []
+  | c :: cs, s => Item.trace c s :: traceL cs s
+end
+
+end
+
+/-! ### `iter.rs`: the iterator as the stack machine it is -/
+
+section
+variable {ι V : Type}
+
+/-- `ItemIter`: `children` = the slice still to visit, `parents` = the chain of boxed parent iterators (each is
+suspended with `values = None`, so only its remaining slice is kept), `values` = the `hash_map::Values` of the
+leaf being drained. -/
+structure IterSt (ι V : Type) where
+  children : List (Item ι V)
+  parents : List (List (Item ι V))
+  values : Option (List V)
+
+/-- `Item::iter()`: `children: slice::from_ref(self), parent: None, values: None`. -/
+def Item.iter (t : Item ι V) : IterSt ι V := ⟨[t], [], none⟩
+
+/-- `ItemIter::next`, one call; the Rust function calls itself after every state change, `fuel` bounds those
+self-calls.  Outer `none` = out of fuel (never with `fuel > IterSt.measure`, see `Proofs/TreeIter.lean`);
+`some none` = the iterator is exhausted; `some (some (v, st'))` = yields `v`, continues from `st'`. -/
+def IterSt.next : Nat → IterSt ι V → Option (Option (V × IterSt ι V))
+  | 0, _ => none
+  | fuel + 1, st =>
+    match st.values with
+    | none =>
+      match st.children with
+      | [] =>
+        match st.parents with
+        | [] => some none
+        | p :: ps => IterSt.next fuel ⟨p, ps, none⟩             -- `*self = *parent`
+      | .empty _ :: rest => IterSt.next fuel ⟨rest, st.parents, none⟩
+      | .leaf _ vs :: rest => IterSt.next fuel ⟨rest, st.parents, some (vs.map (·.2))⟩
+      | .node _ cs :: rest => IterSt.next fuel ⟨cs, rest :: st.parents, none⟩
+    | some [] => IterSt.next fuel ⟨st.children, st.parents, none⟩
+    | some (v :: vs) => some (some (v, ⟨st.children, st.parents, some vs⟩))
+
+mutual
+/-- Size measure: every self-call of `next` decreases `IterSt.measure` by one. -/
+def Item.sz : Item ι V → Nat
+  | .empty _ => 1
+  | .leaf _ vs => vs.length + 2
+  | .node _ cs => szL cs + 2
+def szL : List (Item ι V) → Nat
+  | [] => 0
+  | c :: cs => Item.sz c + szL cs
+end
+
+def IterSt.measure (st : IterSt ι V) : Nat :=
+  szL st.children + (st.parents.map fun p => szL p + 1).sum +
+    (match st.values with | none => 0 | some vs => vs.length + 1)
+
+/-- Collect by calling `next` until it returns `None` (`n` bounds the number of calls). -/
+def IterSt.drain (fuel : Nat) : Nat → IterSt ι V → Option (List V)
+  | 0, _ => none
+  | n + 1, st =>
+    match IterSt.next fuel st with
+    | none => none
+    | some none => some []
+    | some (some (v, st')) => (IterSt.drain fuel n st').map (v :: ·)
+
+/-- `tree.iter().collect()`. -/
+def Item.iterCollect (t : Item ι V) : Option (List V) :=
+  IterSt.drain (t.iter.measure + 1) (t.iter.measure + 1) t.iter
+
+end
+
 /-! ### The structural invariant (decidable; evaluated by the driver on every tree it builds and
 compared, through the snapshot hook, with the real tree) -/
 
@@ -394,17 +515,23 @@ def refRetain (L : List (Entry ι V)) (f : ι → V → Option V) : List (Entry 
 /-- A pure predicate as a `retain` closure. -/
 def keepIf (g : ι → V → Bool) : ι → V → Option V := fun id v => if g id v then some v else none
 
+/-- `get_mut(p)` + update on the flat list: the values stored under pattern `p` are updated. -/
+def refModify (L : List (Entry ι V)) (p : List Char) (g : ι → V → V) : List (Entry ι V) :=
+  L.map fun e => if e.pat = p then ⟨e.pat, e.id, g e.id e.val⟩ else e
+
 /-- The operations of the property's histories. -/
 inductive Op (ι V : Type) where
   | insert (p : List Char) (id : ι) (v : V)
   | remove (id : ι)
   | retain (f : ι → V → Option V)
+  | modify (p : List Char) (g : ι → V → V)
   | cache (limit : Nat) (level : Option Nat)
 
 def refStep (L : List (Entry ι V)) : Op ι V → List (Entry ι V)
   | .insert p id v => refInsert L p id v
   | .remove id => refRemove L id
   | .retain f => refRetain L f
+  | .modify p g => refModify L p g
   | .cache _ _ => L
 
 /-- One operation on the tree (`RegexTreeMap::{insert,remove,retain,cache}`); `none` only if `cache`
@@ -413,6 +540,7 @@ def treeStep (E : Engine) (t : Item ι V) : Op ι V → Option (Item ι V)
   | .insert p id v => some (t.insert p id v)
   | .remove id => some (t.remove id).1
   | .retain f => some (t.retain f)
+  | .modify p g => some (t.modifyAt p g)
   | .cache limit level => (treeCache E t limit level).map (·.1)
 
 def treeRun (E : Engine) : Item ι V → List (Op ι V) → Option (Item ι V)
